@@ -309,8 +309,12 @@ pub fn enforce_limbs_agg<E: FieldElement<BaseField = Felt>>(
     result[0] += op_flag.u32assert2() * are_equal(frame.stack_item_next(0), limbs.v_lo());
 
     // Enforces that aggregation of the two upper 16-bits limbs is equal to the first stack element
-    // in the next row.
-    result[1] = u32op_ex_div_assert2_sub * are_equal(frame.stack_item_next(0), limbs.v_hi());
+    // in the next row. For U32ADD and U32ADD3 the first stack element is the third limb alone: the
+    // sum constraint covers h0..h2 only, so h3 must not contribute to the reported carry.
+    let u32add_add3 = op_flag.u32add() + op_flag.u32add3();
+    result[1] = (u32op_ex_div_assert2_sub - u32add_add3)
+        * are_equal(frame.stack_item_next(0), limbs.v_hi());
+    result[1] += u32add_add3 * are_equal(frame.stack_item_next(0), frame.user_op_helper(2));
     result[1] += op_flag.u32assert2() * are_equal(frame.stack_item_next(1), limbs.v_hi());
 
     2
